@@ -72,9 +72,9 @@ CHECKS["C16"] = dict(
 )
 CHECKS["C20"] = dict(
     level="exploration",
-    text="The scenarios of C01, C10, C17, C18, C08 and C02 re-run with all log records captured at Trace level and unique canaries in every secret-bearing field; any record containing a canary verbatim, base64-decoded or hex-dumped is a violation keyed by its source line.",
+    text="The scenarios of C01, C10, C17, C18, C08, C02 and C05 re-run with all log records captured at Trace level and unique canaries in every secret-bearing field; any record containing a canary verbatim, base64-decoded or hex-dumped is a violation keyed by its source line.",
     design="DESIGN.md section 8 (C20)",
-    note="Only records reaching the log facade are seen; paths the other scenarios do not reach are not covered. HTTP/3 not simulated.",
+    note="Only records reaching the log facade are seen; paths the other scenarios do not reach are not covered. Two known findings (trace records of the rustls dependency that print the server name) are listed in known_findings.json. HTTP/3 not simulated.",
 )
 
 CHECKS["C06"] = dict(
